@@ -721,9 +721,22 @@ class UserTrackingManager:
             return
 
         if event.state == ConnectionState.CLOSED:
-            tasks = self.stop()
-            if tasks:
-                await asyncio.gather(*self.stop(), return_exceptions=True)
+            # The connection can be closed from within a tracking task (sending
+            # a message failed). Cancelling and waiting for the tracking tasks
+            # here would make that task wait for its own cancellation (and
+            # interrupt handling the state change): drop the tracked users and
+            # cancel their tasks once the state change has been handled
+            tracked_users = list(self._tracked_users.values())
+            self._tracked_users = dict()
+
+            def _cancel_tasks():
+                for tracked_user in tracked_users:
+                    if tracked_user.task:
+                        tracked_user.task.cancel()
+                    if tracked_user.retry_task:
+                        tracked_user.retry_task.cancel()
+
+            asyncio.get_running_loop().call_soon(_cancel_tasks)
 
     def stop(self) -> list[asyncio.Task]:
         tasks = []
